@@ -455,42 +455,43 @@ func (checker *Checker) visitMemberExpressionAssignment(
 
 		if functionActivation.InitializationInfo != nil {
 
-			// If the function potentially returned before,
-			// then the initialization is not definitive, and it must be ignored
+			// If the field is constant,
+			// or it is variable and resource-kinded,
+			// and it has already previously been initialized,
+			// report an error for the repeated assignment / initialization
+			//
+			// Assigning to a variable, resource-kinded field is invalid,
+			// because the initial value would get lost.
+			//
+			// NOTE: this must also be checked if the function potentially returned before:
+			// the field is still initialized on the paths which did not return
 
-			// NOTE: assignment can still be considered definitive if the function maybe halted
+			initializedFieldMembers := functionActivation.InitializationInfo.InitializedFieldMembers
 
-			if !functionActivation.ReturnInfo.MaybeReturned {
+			if (targetIsConstant || memberType.IsResourceType()) &&
+				initializedFieldMembers.Contains(accessedSelfMember) {
 
-				// If the field is constant,
-				// or it is variable and resource-kinded,
-				// and it has already previously been initialized,
-				// report an error for the repeated assignment / initialization
+				checker.report(
+					&FieldReinitializationError{
+						Name:  target.Identifier.Identifier,
+						Range: ast.NewRangeFromPositioned(checker.memoryGauge, target.Identifier),
+					},
+				)
+
+			} else if !functionActivation.InitializationInfo.FieldMembers.Contains(accessedSelfMember) {
+				// This member is not supposed to be initialized
+
+				reportAssignmentToConstant()
+
+			} else if !functionActivation.ReturnInfo.MaybeReturned {
+				// This is the initial assignment to the field, record it.
 				//
-				// Assigning to a variable, resource-kinded field is invalid,
-				// because the initial value would get lost.
+				// If the function potentially returned before,
+				// then the initialization is not definitive, and it must not be recorded.
+				//
+				// NOTE: assignment can still be considered definitive if the function maybe halted
 
-				initializedFieldMembers := functionActivation.InitializationInfo.InitializedFieldMembers
-
-				if (targetIsConstant || memberType.IsResourceType()) &&
-					initializedFieldMembers.Contains(accessedSelfMember) {
-
-					checker.report(
-						&FieldReinitializationError{
-							Name:  target.Identifier.Identifier,
-							Range: ast.NewRangeFromPositioned(checker.memoryGauge, target.Identifier),
-						},
-					)
-
-				} else if !functionActivation.InitializationInfo.FieldMembers.Contains(accessedSelfMember) {
-					// This member is not supposed to be initialized
-
-					reportAssignmentToConstant()
-				} else {
-					// This is the initial assignment to the field, record it
-
-					initializedFieldMembers.Add(accessedSelfMember)
-				}
+				initializedFieldMembers.Add(accessedSelfMember)
 			}
 
 		} else if targetIsConstant {
